@@ -6,6 +6,7 @@ MODULE = "cspuz.puzzle.masyu"
 FUNC = "solve_masyu"
 LOOP = True
 VALUES = [0, 1, 2]
+TIER1 = ("Masyu", "solve_masyu_model")
 
 
 def call(mod, pb):
@@ -40,3 +41,41 @@ def tier2(tier, rng):
             yield {"h": h, "w": w, "grid": g}
     for g in L.sample(rng, L.all_grids(2, 2, VALUES), 40 if tier == "thorough" else 6):
         yield {"h": 2, "w": 2, "grid": g}
+
+
+def tier1_problems(tier, rng):
+    """program-capture tie: every circle layout of the boards with <= 4 cells (values 0, 1, 2 and the out-of-alphabet 3 on the
+    boards with <= 3 cells), all layouts (thorough) or a sample (quick) of the boards with 5..6 cells (both orientations), random
+    layouts on larger and non-square boards (up to 7x7, 1xN, Nx1; dense and sparse, all-white, all-black) with values beyond the
+    alphabet (-1, 3, 7: no circle), and malformed problems: height <= 0 or width <= 0 (ValueError), trailing cells / rows
+    missing (IndexError)"""
+    th = tier == "thorough"
+    wide = VALUES + [3]
+    for (h, w) in [(1, 1), (1, 2), (2, 1), (1, 3), (3, 1)]:
+        for g in L.all_grids(h, w, wide):
+            yield {"h": h, "w": w, "grid": g}
+    for (h, w) in [(2, 2), (1, 4), (4, 1)]:
+        for g in L.all_grids(h, w, VALUES):
+            yield {"h": h, "w": w, "grid": g}
+    for (h, w) in [(1, 5), (5, 1), (2, 3), (3, 2), (1, 6), (6, 1)]:
+        grids = L.all_grids(h, w, VALUES)
+        for g in (grids if th else L.sample(rng, grids, 40)):
+            yield {"h": h, "w": w, "grid": g}
+    far = [-1, 0, 1, 1, 2, 2, 3, 7]
+    for (h, w) in [(3, 3), (2, 4), (4, 2), (2, 5), (5, 2), (3, 4), (4, 3), (4, 4), (3, 6), (6, 3), (5, 5), (4, 6),
+                   (6, 5), (7, 7), (1, 7), (7, 1), (1, 9), (8, 1), (2, 7), (7, 2)]:
+        for p in [0.1, 0.5] * (3 if th else 1):
+            yield {"h": h, "w": w, "grid": L.random_grid(rng, h, w, VALUES, p)}
+        yield {"h": h, "w": w, "grid": [[rng.choice(far) for _ in range(w)] for _ in range(h)]}
+        for v in ([1, 2] if th or h * w <= 16 else [rng.choice([1, 2])]):
+            yield {"h": h, "w": w, "grid": [[v] * w for _ in range(h)]}
+    # malformed: no row or no column -> ValueError (Array2D.__init__ for the frame of height - 1 x width - 1 cells)
+    for (h, w) in [(0, 0), (0, 1), (1, 0), (0, 3), (3, 0), (0, 6), (5, 0), (-1, 0), (0, -1), (-1, 2), (2, -1), (-3, 1),
+                   (1, -2), (-2, 0), (0, -4)]:
+        yield {"h": h, "w": w, "grid": [[] for _ in range(max(h, 0))]}
+    # malformed: trailing cells / rows missing -> IndexError (after the frame and the loop constraints were posted)
+    for (h, w) in [(1, 1), (1, 3), (2, 2), (3, 2), (4, 4)]:
+        g = L.random_grid(rng, h, w, VALUES, 0.5)
+        yield {"h": h, "w": w, "grid": g[:-1] + [g[-1][:-1]]}
+        yield {"h": h, "w": w, "grid": g[:-1]}
+        yield {"h": h, "w": w, "grid": []}
